@@ -73,7 +73,7 @@ if os.path.exists(p):
         f=line.rstrip('\n').split('\t')
         if len(f)<3: matrix[f[0]]={"error":f[1] if len(f)>1 else ""}; continue
         matrix[f[0]]={kv.split('=')[0]:int(kv.split('=')[1]) for kv in f[1:]}
-for p2 in ('/verif/seeded/round2.tsv','/verif/seeded/round3.tsv','/verif/seeded/round4.tsv','/verif/seeded/round5.tsv'):
+for p2 in ('/verif/seeded/round2.tsv','/verif/seeded/round3.tsv','/verif/seeded/round4.tsv','/verif/seeded/round5.tsv','/verif/seeded/round6.tsv'):
   if os.path.exists(p2):
     for line in open(p2):
         f=line.rstrip('\n').split('\t')
